@@ -34,8 +34,9 @@ signed_time = st.builds(lambda s, m, e: s * m * 10.0 ** e, st.sampled_from([-1.0
 def _case(draw):
     spec = draw(zoo.system_spec(classes=zoo.TRACTABLE, max_dim=4, allow_down=True))
     n = spec["dim"]
+    m2 = draw(st.one_of(st.none(), zoo.metric_spec(n, ["scaled", "diag", "dense", "chol_lower", "eig"])))
     return {"sys": spec, "q": draw(vec(n, -1.5, 1.5)), "p": draw(vec(n, -2.0, 2.0)), "t": draw(signed_time),
-            "s": draw(signed_time)}
+            "s": draw(signed_time), "metric2": m2}
 
 
 def strategy(tier):
@@ -47,15 +48,38 @@ def selfcheck():
 
 
 def run_case(case) -> Result:
+    res = _run(case, case["sys"], None)
+    if case.get("metric2") is not None and not res.failures and not res.discarded:
+        # the metric of a system object is a public attribute that the metric adapters re-assign after warm-up:
+        # the flows of the SAME system object must follow the new metric
+        spec2 = dict(case["sys"], metric=case["metric2"])
+        res2 = _run(case, spec2, case["sys"])
+        res.failures += res2.failures
+        res.classes.append("metric-replaced-after-use")
+    return res
+
+
+def _run(case, spec, first_spec) -> Result:
     from mici.states import ChainState
 
     res = Result()
-    spec = case["sys"]
-    system, model = zoo.build_system(spec)
+    if first_spec is None:
+        system, model = zoo.build_system(spec)
+    else:
+        # build with the first metric, use the flows once, then replace the metric attribute
+        system, _ = zoo.build_system(first_spec)
+        warm = ChainState(pos=np.array(case["q"], dtype=float), mom=np.array(case["p"], dtype=float), dir=1)
+        system.h2_flow(warm, 0.37)
+        if hasattr(system, "dh2_flow_dmom"):
+            system.dh2_flow_dmom(warm, 0.37)
+        new_metric = zoo.build_metric(spec["metric"], spec["dim"])
+        system.metric = new_metric
+        model = zoo.Model(spec)
     q, p = np.array(case["q"], dtype=float), np.array(case["p"], dtype=float)
     t, s = case["t"], case["s"]
     cls, mt = spec["cls"], spec["metric"]["type"]
-    tag = f"{cls}[{mt}{'-down' if spec['metric'].get('sign') == -1 else ''}]"
+    tag = f"{cls}[{mt}{'-down' if spec['metric'].get('sign') == -1 else ''}]" + (
+        "[metric-replaced]" if first_spec is not None else "")
     res.classes += [cls, "metric:" + mt]
     if model.con is not None:
         J = model.con.jac(q)
